@@ -9,7 +9,7 @@ LEAN_TARGETS = ['LLTD.Props.C14']
 VARIANT = 'plain'
 EXHAUSTIVE = True
 RULE = ('every tier: all (state, input in -128..255 and boundary ints, elapsed in {0,t-1,t,t+1,10t}) single steps of '
-        'switch_state_mapping via `fsm set`/`fsm step`, plus seeded random sequences of inputs, clock advances, '
+        'switch_state_mapping via `fsm set`/`fsm step`, all pairs of events with the clock moving on during the first one (`fsm stepj`), plus seeded random sequences of inputs, clock advances, '
         'charge/inactivity calls and ticks with a session table; a case is non-trivial if the automaton changed state; '
         'distinct = distinct projected transcript')
 ASSUMPTIONS = ['clock values stay below 2^64 s and never run backwards (uint64_t wrap-around of time stamps is not modelled)']
@@ -41,6 +41,8 @@ def sequence(rng, n):
         if c < 0.35:
             i = rng.choice([0, 0, 2, 2, 8, 4, 6, 11, 9, -3, -2, -1, 1, 3, 5, 7, 12, rng.randint(-128, 255)])
             ops.append('fsm step 0 %d' % i)
+            if rng.random() < 0.15:
+                ops[-1] = 'fsm stepj 0 %d %d' % (i, rng.choice([1, 500, 1000, 1001]))
             if rng.random() < 0.6:
                 ops.append('map resetinact 0')
         elif c < 0.6:
@@ -58,6 +60,7 @@ def sequence(rng, n):
 
 def cases(rng, tier, X):
     out = cells(X)
+    out += auto.moving_clock_cells('map', X['mappingStatesNo'], X['mappingTimeouts'], [0, 2, 8, -1, -3, 3, 6])
     n = 300 if tier == 'quick' else 20000
     for k in range(n):
         out.append(('seq%d' % k, sequence(rng, rng.randint(5, 60))))
